@@ -143,24 +143,24 @@ Qed.
 (* ---------------------------------------------------------------------------------------------- *)
 (* binding: a Referenz parameter is bound to the very storage of its argument — every occurrence of
    the same variable to the same storage, a global to the global's storage *)
-Lemma bind_params_refs : forall el mt f ps i args e ce st ce' st',
-  bind_params el mt f i ps args e ce st = Ok (ce', st') ->
+Lemma bind_params_refs : forall el mt all f ps i args e ce st ce' st',
+  bind_params el mt all f i ps args e ce st = Ok (ce', st') ->
   NoDup (map pname ps) ->
   (forall k p x, nth_error ps k = Some p -> pref p = true -> nth_error args k = Some (ARef x) ->
      exists a, lookup e x = Some a /\ lookup ce' (pname p) = Some a) /\
   (forall y, ~ In y (map pname ps) -> lookup ce' y = lookup ce y).
 Proof.
-  intros el mt f ps. induction ps as [|p ps IH]; intros i args e ce st ce' st' H Hnd;
+  intros el mt all f ps. induction ps as [|p ps IH]; intros i args e ce st ce' st' H Hnd;
     destruct args as [|a args]; cbn in H; try discriminate H.
   - inv H. split; auto. intros k p x Hk. destruct k; discriminate Hk.
   - inv Hnd.
-    assert (K : exists st1 ad, bind_params el mt f (S i) ps args e ((pname p, ad) :: ce) st1 = Ok (ce', st')
+    assert (K : exists st1 ad, bind_params el mt all f (S i) ps args e ((pname p, ad) :: ce) st1 = Ok (ce', st')
                  /\ (pref p = true -> exists x, a = ARef x /\ lookup e x = Some ad)).
     { destruct (pref p) eqn:Ep; destruct a as [ex|x]; try discriminate H.
       - destruct (lookup e x) as [ad|] eqn:El; [|discriminate H]. exists st, ad. split; eauto.
       - bind_as H r He H. destruct r as [v st1]. destruct v as [z|l tmp].
         + destruct (new_var (VInt z) st1) as [ad st2] eqn:En. exists st2, ad. split; [auto|discriminate].
-        + destruct (el && is_const mt f i && negb tmp).
+        + destruct (el && is_const mt f i && negb tmp && may_elide e all ex st1).
           * destruct (alloc (Alias (target l st1)) st1) as [lh st1'] eqn:Ea.
             destruct (new_var (VPtr lh) st1') as [ad st2] eqn:En.
             exists st2, ad. split; [auto|discriminate].
@@ -186,8 +186,8 @@ Theorem ref_visible : forall mt funs genv fuel X e dst f args st st',
   Sep X st -> tmps st = [] -> env_ok genv e st ->
   exists fd ce st1 st2,
     nth_error funs f = Some fd /\
-    bind_params false mt f 0 (fparams fd) args e genv st = Ok (ce, st1) /\
-    exec false mt funs genv fuel ce (fbody fd) (set_tmps st1 []) = Ok st2 /\
+    bind_params false mt args f 0 (fparams fd) args e genv st = Ok (ce, st1) /\
+    exec false mt funs genv fuel ce (fbody fd) (set_fbase (set_tmps st1 []) (length (vars st))) = Ok st2 /\
     (NoDup (map pname (fparams fd)) ->
      forall k p x, nth_error (fparams fd) k = Some p -> pref p = true -> nth_error args k = Some (ARef x) ->
        exists a, lookup e x = Some a /\ lookup ce (pname p) = Some a /\
@@ -201,7 +201,7 @@ Proof.
     as ((A1 & A2 & A3 & A4) & fd & ce & st1 & st2 & E1 & E2 & E3 & E4).
   exists fd, ce, st1, st2. split; [auto|split; [auto|split; [auto|split]]].
   - intros Hnd k p x Hk Hp Ha.
-    destruct (bind_params_refs _ _ _ _ _ _ _ _ _ _ _ E2 Hnd) as (R1 & _).
+    destruct (bind_params_refs _ _ _ _ _ _ _ _ _ _ _ _ E2 Hnd) as (R1 & _).
     destruct (R1 _ _ _ Hk Hp Ha) as (a & L1 & L2). exists a. split; [auto|split; [auto|]].
     intros Hd. apply keeps_value. apply E4.
     + destruct He as [He1 _]. apply He1. eapply lookup_in; eauto.
